@@ -1,4 +1,6 @@
 import Tv.GenPart
+import Tv.GenAgg
+import Tv.Lemmas.GenSim
 import Tv.Thm.C12
 import Mathlib.Tactic.SplitIfs
 import Mathlib.Data.List.Induction
@@ -15,7 +17,7 @@ C12.Std` with the documented contract `S.Ok`.  Proved: the regenerated functions
 (`*_trusted`), which is `kth + 1` on every path.
 -/
 namespace Tv.C12Gen
-open Tv Tv.C12
+open Tv Tv.GenSim Tv.C12
 
 theorem valid_length (xs : List Elem) : (valid xs).length = (xs.filter Option.isSome).length := by
   induction xs with
@@ -199,6 +201,51 @@ theorem varg_partition_spec {S : Std} (hS : S.Ok) (xs : List Elem) (kth : Nat) (
       (argValues xs kth idx).Perm (Spec.partition xs kth rev) ∧
       (sort = true → argValues xs kth idx = Spec.partition xs kth rev) := by
   rw [varg_partition_eq hS]; exact C12.argpartition_exact hS xs kth sort rev
+
+/-! ## `vpercentile_of` (tea-agg/src/lib.rs), regenerated by aggs.py -/
+
+def pm : Gen.PctMethod → PMethod
+  | .rank => .rank
+  | .weak => .weak
+  | .strict => .strict
+
+/-- the `for_each` closure of `vpercentile_of` with its three counters -/
+theorem fold_pct (score : Rat) (F : Nat × Nat × Nat → Elem → Nat × Nat × Nat)
+    (hF : ∀ tot lt eq v, F (tot, lt, eq) v =
+      ((pctStep score (lt, eq, tot) v).2.2, (pctStep score (lt, eq, tot) v).1, (pctStep score (lt, eq, tot) v).2.1))
+    (xs : List Elem) (lt eq tot : Nat) :
+    List.foldl F (tot, lt, eq) xs =
+      ((xs.foldl (pctStep score) (lt, eq, tot)).2.2, (xs.foldl (pctStep score) (lt, eq, tot)).1,
+       (xs.foldl (pctStep score) (lt, eq, tot)).2.1) := by
+  induction xs generalizing lt eq tot with
+  | nil => rfl
+  | cons v xs ih =>
+    rw [List.foldl_cons, List.foldl_cons, hF]
+    exact ih _ _ _
+
+theorem vpercentile_of_agree (sqrt : Rat → Rat) (xs : List Elem) (score : Elem) (m : Gen.PctMethod) :
+    Agree sqrt (GenAgg.vpercentile_of.run sqrt xs score m) (C12.vpercentileOf xs score (pm m)) := by
+  unfold GenAgg.vpercentile_of.run C12.vpercentileOf
+  cases score with
+  | none => simp [Agree]
+  | some s =>
+    simp only []
+    rw [fold_pct s _ (fun tot lt eq v => by
+      cases v with
+      | none => simp [pctStep]
+      | some x =>
+        by_cases h1 : x < s
+        · simp [pctStep, h1]
+        · by_cases h2 : x = s <;> simp [pctStep, h1, h2]) xs 0 0 0]
+    generalize xs.foldl (pctStep s) (0, 0, 0) = c
+    obtain ⟨lt, eq, tot⟩ := c
+    by_cases h0 : tot = 0
+    · simp [h0, Agree]
+    · have hq : ((tot : Nat) : Rat) ≠ 0 := by exact_mod_cast h0
+      cases m <;> simp only [pm, h0, decide_false, decide_true, if_false, Bool.false_eq_true]
+      · by_cases he : eq > 1 <;> simp [he, Out.div, hq, Agree]
+      · simp [Out.div, hq, Agree]
+      · simp [Out.div, hq, Agree]
 
 theorem functions_present :
     GenPart.functions = ["vpartition", "varg_partition"] ∧ GenPart.vpartition.parsed = true ∧
